@@ -317,10 +317,9 @@ class WfGen:
             # first_non_null / the_only_non_null over optional sources
             n = 1 if rng.random() < 0.05 else rng.choice([2, 2, 3])
             pv = rng.choice(["first_non_null", "first_non_null", "the_only_non_null"])
-            if n == 1 and rng.random() < 0.6 and not is_arr(t):
-                rec["src"] = [self.get_ref(arr(opt(t)))[0]]
-                rec["list"] = False
-            else:
+            # (a single non-list T?[] source with first/the_only_non_null into a sink of type T is accepted only at
+            #  workflow outputs by cwltool: as a step input it is a type mismatch, so it is not generated here)
+            if True:
                 rec["src"] = self.get_refs([opt(t), opt(t), t], n)
                 rec["list"] = True
                 if n == 1 or rng.random() < 0.3:
